@@ -227,7 +227,8 @@ class Doc:
         elif op == "eq":
             t = "%s == %d" % (c["n"], c["v"])
         elif op == "err":
-            t = "nope_undefined.q"
+            # v = 1: an expression that does not even parse
+            t = "nope_undefined.q" if not c.get("v") else "1 +"
         else:
             raise ValueError(op)
         if gk is not None and self.guards and self.dm != "null":
@@ -245,7 +246,8 @@ class Doc:
         if k == "in":
             return "In('%s')" % self.j["name"][e["v"] - 1]
         if k == "err":
-            return "nope_undefined.q"
+            # v = 1: an expression that does not even parse (syntax error instead of a failing evaluation)
+            return "nope_undefined.q" if not e.get("v") else "1 +"
         raise ValueError(k)
 
     def _block_xml(self, bid, ind):
@@ -980,12 +982,13 @@ def inject_errors(block, positions):
         node = b
         for step in p:
             node = node[step]
+        syn = len(res) % 3 == 1          # every third variant: a syntax error instead of a failing evaluation
         if kind == "e":
-            node["e"] = [expr("err")] + node["e"][1:]
+            node["e"] = [expr("err", v=1 if syn else 0)] + node["e"][1:]
         elif kind == "send":
-            node["e"] = [expr("err")]
+            node["e"] = [expr("err", v=1 if syn else 0)]
         else:
-            node["c"] = cond("err")
+            node["c"] = cond("err", v=1 if syn and not (gk_guarded := False) else 0)
         res.append(b)
     return res
 
